@@ -104,9 +104,12 @@ void text_ops(Enumerator &E) {
             for (unsigned var = 0; var < nvar; var++) {
                 if ((h.kind == S_FROM || h.kind == S_SET) && var >= 1 && ki >= 3) continue;      // validated / latin1 variants: 3 source forms
                 for (unsigned mode = 0; mode < 3; mode++) {
-                    if (mode && !(h.kind == S_CONSTRUCT && (sk == SK_PTRLEN || sk == SK_CBUF_L || sk == SK_CBUF_R || sk == SK_16N || sk == SK_32BUF))) continue;
+                    const bool moded = (h.kind == S_CONSTRUCT || h.kind == S_SET || h.kind == S_FROM) && var == 0 &&
+                                       (sk == SK_PTRLEN || sk == SK_CBUF_L || sk == SK_CBUF_R || sk == SK_STD || sk == SK_16N || sk == SK_32BUF || sk == SK_WSTR);
+                    if (mode && !moded) continue;
                     for (int corrupt = 0; corrupt < 2; corrupt++) {
-                        if (corrupt && (pool_kind(sk) || sk == SK_NULL || var || mode)) continue;
+                        const bool pool_corruptible = sk == SK_CBUF_L || sk == SK_CBUF_R || sk == SK_32BUF;
+                        if (corrupt && ((pool_kind(sk) && !pool_corruptible) || sk == SK_NULL || var)) continue;
                         const uint32_t *AC = wide12(sk) ? LC12 : LC16;
                         for (int ai = 0; ai < 5; ai++) {
                             if (sk == SK_NULL && ai) continue;
@@ -116,13 +119,13 @@ void text_ops(Enumerator &E) {
                                 uint32_t bsel = SRC + 4;
                                 if (pool_kind(sk)) {
                                     if (sk == SK_STR_COPY || sk == SK_STR_MOVE) bsel = b.str(AC[ai]);
-                                    else bsel = b.buf(pool_type(sk), AC[ai]);
+                                    else { bsel = b.buf(pool_type(sk), AC[ai]); if (corrupt) { b.p.ops.back().fault = F_CORRUPT; b.p.ops.back().fc = ((AC[ai] / 2) << 8) | 1; } }
                                 }
                                 Op o; o.kind = h.kind; o.a = tsel; o.b = bsel; o.c = AC[ai];
                                 o.d = (h.kind == S_APPEND || h.kind == S_PLUS) ? ki : sk;
                                 if (h.kind == S_PLUS) o.d |= var << 8;
                                 else o.d |= (mode << 8) | (var << 12);
-                                if (corrupt) { o.fault = F_CORRUPT; o.fc = (AC[ai] / 2) << 8 | 1; }
+                                if (corrupt && !pool_kind(sk)) { o.fault = F_CORRUPT; o.fc = (AC[ai] / 2) << 8 | 1; }
                                 size_t ts = b.target(o);
                                 char cls[32]; std::snprintf(cls, sizeof cls, "dst=%c,arg=%c", h.has_target ? L(LC16[ti], 16) : '-', L(AC[ai], wide12(sk) ? 12 : 16));
                                 E.cell(nm(h.name, std::string(SK_kind_name(sk)) + ",var" + std::to_string(var) + ",mode" + std::to_string(mode) + (corrupt ? ",corrupted" : ""), cls), b, ts);
